@@ -72,7 +72,8 @@ CATALOGUE = catalogue()
 
 class Profile:
     def __init__(self, name, classes, allow_top_write=True, dynidx=False, mixed_json=False, failures=0.0,
-                 methods=True, impure=False, control=0.25, forget=0.1, lenreads=True):
+                 methods=True, impure=False, control=0.25, forget=0.1, lenreads=True, cancels=False):
+        self.cancels = cancels
         self.name = name
         self.classes = classes
         self.allow_top_write = allow_top_write
@@ -93,6 +94,8 @@ PROFILES = {
     "wild": Profile("wild", {"field", "ptrfield", "valfield", "slice", "map", "top", "json", "jsonsel", "dynidx"},
                     dynidx=True, mixed_json=True, failures=0.1, impure=True),
     "faulty": Profile("faulty", {"field", "ptrfield", "slice", "map", "top", "json"}, failures=0.5),
+    # fact methods that cancel the run's context from inside a condition or an action
+    "cancel": Profile("cancel", {"field", "ptrfield", "slice", "map", "top"}, cancels=True),
 }
 
 
@@ -168,6 +171,8 @@ class RuleGen:
         r = self.r
         if d <= 0 or r.chance(0.35):
             return self.read("int")
+        if self.p.cancels and r.chance(0.15):
+            return atom(meth(var(root("F")), "CancelRet", atom(cint(r.range(0, 3)))))
         k = r.weighted([("arith", 6), ("heavy", 2 if self.p.methods else 0), ("sum", 1 if self.p.methods else 0),
                         ("len", 2 if self.p.lenreads else 0), ("mod", 1), ("bit", 1), ("geti", 1 if self.p.impure else 0),
                         ("fail", 1 if r.chance(self.p.failures) else 0)])
@@ -365,7 +370,7 @@ class RuleGen:
         if k == "retract_other":
             return ("retract_other", None)
         if k == "retract_unknown":
-            return stmt(call("Retract", atom(cstr("NoSuchRule"))))
+            return ("retract_unknown", None)
         if k == "complete":
             return stmt(call("Complete"))
         return stmt(call("Log", atom(cstr("x"))))
@@ -387,6 +392,13 @@ class RuleGen:
                 if isinstance(a, tuple):
                     if a[0] == "retract_self":
                         a = stmt(call("Retract", atom(cstr(name))))
+                    elif a[0] == "retract_unknown":
+                        other = r.choice(all_names)
+                        unknown = r.choice(["NoSuchRule", other.upper() if other.upper() not in all_names else "NoSuchRule",
+                                            other + "x", other[:-1] if len(other) > 1 and other[:-1] not in all_names else "Zz", ""])
+                        if unknown in all_names:
+                            unknown = "NoSuchRule"
+                        a = stmt(call("Retract", atom(cstr(unknown))))
                     else:
                         a = stmt(call("Retract", atom(cstr(r.choice(all_names)))))
                 acts.append(a)
@@ -401,6 +413,8 @@ class RuleGen:
                 self.uses_method_state = True
             elif r.chance(self.p.failures * 0.5):
                 acts.append(assign("=", path("F.I"), self.fail_int()))
+            elif self.p.cancels and r.chance(0.25):
+                acts.append(stmt(meth(var(root("F")), "Cancel")))
             else:
                 acts.append(self.assignment())
         if not any(a[0] == "as" for a in acts) and r.chance(0.7):
@@ -410,6 +424,11 @@ class RuleGen:
     def rules(self, k):
         r = self.r
         names = ["R%d" % i for i in range(k)]
+        if k >= 2 and r.chance(0.15):
+            # names that differ only in letter case are different rules
+            names[1] = "r0"
+        if r.chance(0.1):
+            names[0] = "Règle"
         out = []
         for nm in names:
             cond = self.expr("bool", r.range(1, 3))
@@ -456,8 +475,16 @@ def engine_scenario(rng: Rng, sid, profile="stable", nexec=None, wm=True):
         if rng.chance(0.2):
             ops.append({"op": "fetch", "inst": "i", "facts": g.facts(), "retErr": rng.chance(0.2)})
         else:
-            ops.append({"op": "exec", "inst": "i", "facts": g.facts(), "max": rng.choice([0, 1, 2, 3, 5, 8, 12]),
-                        "retErr": rng.chance(0.15), "cancelAt": None, "listeners": rng.choice([0, 0, 1, 2])})
+            op = {"op": "exec", "inst": "i", "facts": g.facts(), "max": rng.choice([0, 1, 2, 3, 5, 8, 12]),
+                  "retErr": rng.chance(0.15), "cancelAt": None, "listeners": rng.choice([0, 0, 1, 2])}
+            x = rng.below(100)
+            if x < 12:
+                op["cancelAt"] = rng.choice([0, 1, 2, 3, 4, 5, 7, 9, 12, 20, 33])
+            elif x < 18:
+                op["cancelAtEvent"] = rng.choice([0, 1, 2, 3, 4, 6, 9])
+            if rng.chance(0.5):
+                op["ctxErr"] = "deadline"
+            ops.append(op)
     sc = {"id": sid, "profile": profile, "ops": ops, "meta": {"pool": [c.name for c in g.pool]}}
     if g.uses_method_state:
         # impure / call-count-keyed fact methods: outside the property oracle's quantifier (documented
